@@ -42,7 +42,14 @@ def gen_routing(ctx, k, debug):
                 continue
             m = model.build_msg(addr, 0, t, data)
             msgs.append((m, t, data))
-            sc.add(f'mark c{len(msgs) - 1}', up(m), 'quiesce', 'drain intern')
+            pre = []
+            if not debug and rng.random() < 0.3:
+                # the same packet carries, in front of the message under test, a message that is too short for its (state-tracked) type: that one
+                # is ignored, the messages behind it are received messages like any other
+                tn, full = rng.choice([('MSG_CS_DRIVE_ACK', 3), ('MSG_BM_CONFIDENCE', 3), ('MSG_BM_OCC', 1), ('MSG_LC_STAT', 3), ('MSG_BOOST_STAT', 1), ('MSG_BM_SPEED', 4),
+                                       ('MSG_CS_STATE', 1), ('MSG_ACCESSORY_STATE', 5)])
+                pre = [model.build_msg(rng.choice([(0, 0, 0), (5, 0, 0)]), 0, model.C(tn), bytes(rng.randrange(256) for _ in range(rng.randrange(0, full))))]
+            sc.add(f'mark c{len(msgs) - 1}', up(*pre, m), 'quiesce', 'drain intern')
     sc.add('mark cend', 'stop')
     return sc.text(), msgs
 
